@@ -7,6 +7,7 @@
 package mcp
 
 import (
+	"bytes"
 	"context"
 	"encoding/json"
 	"fmt"
@@ -96,6 +97,12 @@ type PromptMessage struct {
 
 // UnmarshalJSON implements custom unmarshaling for PromptMessage to handle polymorphic Content.
 func (pm *PromptMessage) UnmarshalJSON(data []byte) error {
+	// A JSON null (e.g. a null element of "messages") leaves the message untouched, as encoding/json
+	// does for any other value; unmarshaling it into the pointer below would reset that pointer to nil.
+	if string(bytes.TrimSpace(data)) == "null" {
+		return nil
+	}
+
 	type Alias PromptMessage // Create an alias to avoid recursion with UnmarshalJSON.
 	temp := &struct {
 		Content json.RawMessage `json:"content"` // Capture content as raw message first.
